@@ -79,17 +79,18 @@ class C14(Check):
                         ('fast_ticc/graphical_lasso.py', "LOGGER = logging.getLogger(__name__)\n", "LOGGER = logging.getLogger(__name__)\n_FINISHED = []\n")]}
 
     def bounds(self, tier):
-        return {'K': '2..3' if tier == 'quick' else '2..4', 'iteration_limit': '1..2' if tier == 'quick' else '1..3', 'num_processors': '1..8', 'env': ['unset', "''", "'1'"],
+        return {'K': '2..3' if tier == 'quick' else '2..6', 'iteration_limit': '1..2' if tier == 'quick' else '1..3 (K=4,5: 1..2, K=6: 1)', 'num_processors': '1..8', 'env': ['unset', "''", "'1'"],
                 'cache orders': '(N,W) pairs from {(1,2),(2,1),(2,2)} in every order'}
 
     def configs(self, tier):
         cfgs = []
-        for K in ((2, 3) if tier == 'quick' else (2, 3, 4)):
-            for lim in ((1, 2) if tier == 'quick' or K == 4 else (1, 2, 3)):
-                cfgs.append(Config('schedule_K%d_lim%d' % (K, lim), self.schedule, {'K': K, 'lim': lim}, split=3))
-        cfgs.append(Config('pool_size', self.pool_size, {'K': 2}, split=2))
+        for K in ((2, 3) if tier == 'quick' else (2, 3, 4, 5, 6)):
+            for lim in ((1, 2) if tier == 'quick' or K in (4, 5) else (1,) if K == 6 else (1, 2, 3)):
+                cfgs.append(Config('schedule_K%d_lim%d' % (K, lim), self.schedule, {'K': K, 'lim': lim}, split=3,
+                                   witness_every=211))
+        cfgs.append(Config('pool_size', self.pool_size, {'K': 2}, split=2, witness_every=5))
         cfgs.append(Config('repopulating_runs', self.repopulating_runs, {}, split=3))
-        cfgs.append(Config('cache_order', self.cache_order, {}, nonlinear=True))
+        cfgs.append(Config('cache_order', self.cache_order, {}, nonlinear=True, witness_every=2))
         return cfgs
 
     def _run(self, c, K, lim, schedule, env=None, nproc=1, admm=None, repop=None, labels=None, P=3, data=None):
@@ -185,7 +186,7 @@ class C14(Check):
         admm = KeyedADMM(c, self.R)
         nproc = c.int('nproc', 1, 8)
         env = [None, '', '1'][int(c.int('env', 0, 2))]
-        c.notes.update({'kind': 'pool_size', 'K': K, 'env': env})
+        c.notes.update({'kind': 'pool_size', 'K': K, 'env': env, 'nproc': int(nproc)})
         ref, ml0 = self._run(c, K, 1, 'fifo', admm=admm)
         res, ml = self._run(c, K, 1, 'fifo', env=env, nproc=nproc, admm=admm)
         c.prove('result_independent_of_pool_size_and_env', results_equal(ref, res))
